@@ -365,7 +365,7 @@ pub fn defs() -> Vec<PropDef> {
         },
         PropDef {
             id: "C08", salt: 8, budget: (600, 12_000, 100), specs: &[spec_c08],
-            required: &[("c08.undelegations", 1), ("c08.releases", 1), ("c08.releases_exactly_at_boundary", 1), ("c08.withdraw_attempts_one_second_early", 1), ("c08.undelegations_first_second_after_epoch", 1), ("c08.unbonds_exactly_at_epoch_boundary_not_undelegating", 1), ("c08.withdrawals_with_unripe_claims_left", 1)],
+            required: &[("c08.undelegations", 1), ("c08.releases", 1), ("c08.withdraw_attempts_exactly_at_boundary", 1), ("c08.withdraw_attempts_one_second_early", 1), ("c08.unbonds_first_second_after_epoch", 1), ("c08.unbonds_exactly_at_epoch_boundary_not_undelegating", 1), ("c08.withdrawals_with_unripe_claims_left", 1)],
             rule: "full-world histories with boundary-second clock moves; a case is an undelegation or a withdrawal; distinct = (kind, shape, boundary flags)",
         },
         PropDef {
@@ -380,7 +380,7 @@ pub fn defs() -> Vec<PropDef> {
         },
         PropDef {
             id: "C14", salt: 14, budget: (1000, 20_000, 100), specs: &[spec_c14, spec_c14, spec_c14_full],
-            required: &[("c14.invariant_checks", 1), ("c14.index_updates_with_holders", 1), ("c14.index_updates_without_holders", 1), ("c14.index_updates_without_holders_with_undistributed_delivery", 1), ("c14.claims_ok", 1), ("c14.claims_to_third_party", 1), ("c14.claims_keeping_a_fraction", 1), ("c14.claims_rejected_below_one_unit", 1), ("c14.updates_one_unit_against_huge_supply", 1), ("c14.updates_huge_reward_against_dust_supply", 1)],
+            required: &[("c14.invariant_checks", 1), ("c14.index_updates_with_holders", 1), ("c14.index_updates_without_holders", 1), ("c14.index_updates_without_holders_with_undistributed_delivery", 1), ("c14.claims_ok", 1), ("c14.claims_to_third_party", 1), ("c14.claims_keeping_a_fraction", 1), ("c14.updates_one_unit_against_huge_supply", 1), ("c14.updates_huge_reward_against_dust_supply", 1)],
             rule: "reward-contract world (real reward contract + bSei token + hub config; deliveries by bank transfer + UpdateGlobalIndex from the dispatcher address; mint/burn by the hub address); a case is a claim or an index update; distinct = (kind, decade of amount, fraction kept? / decade of supply, third-party recipient?, #holders)",
         },
         PropDef {
